@@ -207,7 +207,8 @@ class ModelTrainer:
             OmegaConf.save(config=self.config, f=f"{self.dir_path}/initial_config.yaml")
 
         # set seed
-        torch.manual_seed(self.seed)
+        if self.seed is not None:
+            torch.manual_seed(self.seed)
 
         self.max_stride = self.config.model_config.backbone_config[
             f"{self.backbone_type}"
